@@ -221,7 +221,7 @@ func init() {
 }
 
 func init() {
-	claim("C19", "B1", "B2", "B3", "B4")
+	claim("C19", "B1", "B5", "B2", "B3", "B4")
 }
 
 func init() {
